@@ -40,7 +40,8 @@ def tri_name(v):
 class GateTypeVal(Host):
     """Value of a `GateType(name, operator, symmetric)` registration."""
 
-    def __init__(self, name, operator, is_symmetric, node=None):
+    def __init__(self, name, operator, is_symmetric, node=None, var=None):
+        self.var = var or name
         self._name = name
         self._operator = operator
         self._is_symmetric = is_symmetric
@@ -107,7 +108,7 @@ class Denotations:
                     if not res or res[2] != 'function' or res[0].name != OPS_MOD:
                         raise AnalysisError(f'{self.gate.rel}: operator of {var} does not resolve into operators.py')
                     op = res[1]
-                self.types[var] = GateTypeVal(args[0].value, op, bool(args[2].value), value)
+                self.types[var] = GateTypeVal(args[0].value, op, bool(args[2].value), value, var)
                 self.reg_nodes[var] = self.gate.assign_nodes[var]
 
     def op_func(self, opname) -> ast.FunctionDef:
@@ -141,7 +142,7 @@ class Denotations:
                 op = None
             else:
                 op = RepoFunc(self.interp, self.ops, self.op_func(t._operator))
-            out[f'{GATE_MOD}.{var}'] = GateTypeVal(t._name, op, t._is_symmetric, t.node)
+            out[f'{GATE_MOD}.{var}'] = GateTypeVal(t._name, op, t._is_symmetric, t.node, var)
         return out
 
 
